@@ -254,8 +254,11 @@ def finish(ctx, level_keys=None):
     cov.update(ctx.extra)
     ev = {"property_id": ctx.pid, "tier": ctx.tier, "seed": ctx.seed, "level": ctx.level, "coverage": cov,
           "assumptions": ctx.assumptions, "wall_s": round(time.time() - ctx.t0, 2), "violations": len(unknown)}
-    os.makedirs(os.path.join(ROOT, "evidence"), exist_ok=True)
-    with open(os.path.join(ROOT, "evidence", "%s.json" % ctx.pid), "w") as f:
+    # evidence/ describes /repo itself; runs against another tree (VERIF_REPO, used for
+    # mutants and seeded changes) must not overwrite it
+    edir = os.path.join(ROOT, "evidence") if REPO == "/repo" else os.path.join(ROOT, ".work", "evidence_other_tree")
+    os.makedirs(edir, exist_ok=True)
+    with open(os.path.join(edir, "%s.json" % ctx.pid), "w") as f:
         json.dump(ev, f, indent=1, default=str)
     return rc
 
